@@ -8,8 +8,8 @@ Definition load_ok (ah lh an ln : nat) (e : event) : Prop :=
   match e with
   | Load r off w al =>
       match r with
-      | RHay => off + w <= lh /\ (al = true -> (ah + off) mod w = 0)
-      | RNeedle => off + w <= ln /\ (al = true -> (an + off) mod w = 0)
+      | RHay => off + w <= lh /\ (al = true -> 0 < w -> (ah + off) mod w = 0)
+      | RNeedle => off + w <= ln /\ (al = true -> 0 < w -> (an + off) mod w = 0)
       end
   | _ => True
   end.
@@ -37,3 +37,10 @@ Definition rfind_spec (x h : list N) : option nat :=
   if length x <=? length h
   then last_idx (occurs_at x h) (seq 0 (length h - length x + 1))
   else None.
+
+(* a routine that only touches the haystack is also fine next to any needle slice *)
+Lemma load_ok_hay_only ah lh an ln e : load_ok ah lh 0 0 e -> load_ok ah lh an ln e.
+Proof.
+  destruct e as [r off w al| | |]; cbn; try tauto. destruct r; [tauto|].
+  intros [H _]. split; [lia|]. intros _ Hw. lia.
+Qed.
